@@ -1,4 +1,5 @@
 import ChessVerif.Props.C02
+import ChessVerif.Props.C02.Basic
 open Chess.Props.C02
 #print axioms moveNew_abs
 #print axioms moveNew_none_iff
